@@ -50,7 +50,13 @@ def lean_build(targets, timeout=3000):
     """S2: lake build of the given module names. Returns (ok, log)."""
     with _Lock():
         rc, out, err = run(['lake', 'build'] + list(targets), cwd=LEAN, timeout=timeout)
-    return rc == 0, out + err
+    log = out + err
+    if rc != 0:
+        # failing modules and error lines first: the tail of a parallel build is dominated by warnings of modules that did build
+        lines = log.split('\n')
+        head = [l for l in lines if l.startswith('✖') or l.startswith('error:') or l.startswith('- CvxVerif')]
+        log = 'FAILED MODULES / ERRORS:\n' + '\n'.join(head[:200]) + '\n--- log tail ---\n' + log[-1500:]
+    return rc == 0, log
 
 def prop_files(prop):
     import glob
